@@ -489,7 +489,10 @@ impl Database {
                         }
                     };
                     // The other group was moved after the current group, so we have to relocate it.
-                    if existing_group_location_changed < other_group_location_changed {
+                    // (never into its own subtree: the destination moved the target below it)
+                    if existing_group_location_changed < other_group_location_changed
+                        && !current_group_path.contains(&other_group_uuid)
+                    {
                         self.relocate_node(
                             &other_group.uuid,
                             &destination_group_location,
